@@ -442,6 +442,8 @@ class SessionModel:
         return True
 
     def apply_write(self, rel, n, salt):
+        if n == 0:
+            return self.next_avail  # nothing written: nothing skipped either
         self.gaps += rel - self.next_avail
         self.m.add(self.cfg.start + rel, n, salt)
         self.written += n
@@ -646,7 +648,9 @@ def read_raw_file(path):
 def expected_prop_attrs(cfg):
     rd = cfg.real_dtype
     cls = 1 if rd.kind == "f" else 0
-    order = 1 if (cfg.order == ">" and rd.itemsize > 1) else 0
+    # a numpy complex dtype given to the writer is stored with the host's (little endian) float type,
+    # whatever the byte order of the array handed in (values are converted, not reinterpreted)
+    order = 1 if (cfg.order == ">" and rd.itemsize > 1 and cfg.cstyle != "native") else 0
     return {
         "H5Tget_class": cls, "H5Tget_size": rd.itemsize, "H5Tget_order": order,
         "H5Tget_precision": rd.itemsize * 8, "H5Tget_offset": 0,
